@@ -281,6 +281,11 @@ struct Exec<'a> {
     /// C16: the image the current session was opened on, while the session
     /// has used read operations only
     session_image: Option<Vec<u8>>,
+    /// creation time as the getter reported it just before the last close
+    time_before_close: Option<Option<(i64, u32)>>,
+    any_hard_fault_non_flush: bool,
+    /// the session was opened under full oracles (not after corruption etc.)
+    session_clean: bool,
 }
 
 fn fault_free() -> DiskCfg {
@@ -336,6 +341,9 @@ impl<'a> Exec<'a> {
 
     fn retire_disk(&mut self) {
         let st = self.disk.borrow();
+        if (0..3).any(|k| st.stats.hard_transient[k] != 0 || st.stats.hard_persistent[k] != 0) || st.stats.storage_full != 0 {
+            self.any_hard_fault_non_flush = true;
+        }
         self.carry_ord = st.ord;
         self.stats.final_len = st.view.len() as u64;
         self.stats.disk.add(&st.stats);
@@ -1065,6 +1073,18 @@ impl<'a> Exec<'a> {
         self.stats.oracle_evals += 1;
         let mut diffs = snapshot::compare(&snap, &self.model);
         diffs.extend(snapshot::invariants(&snap, Some(&self.model)));
+        if let Some(before) = self.time_before_close.take() {
+            // the very value that was observable just before closing
+            if phase != Phase::FirstOpen && before != snap.summary.time {
+                diffs.push(Diff {
+                    area: Area::Summary,
+                    msg: format!(
+                        "summary creation_time was {:?} just before closing and is {:?} after reopening",
+                        before, snap.summary.time
+                    ),
+                });
+            }
+        }
         self.map_diffs(diffs, phase);
         // C16: that read-only session wrote nothing, whichever way it closes
         let mode = self.aux(7) % 3;
@@ -1234,6 +1254,7 @@ impl<'a> Exec<'a> {
             Some(p) => p,
             None => return,
         };
+        self.time_before_close = Some(pkg.summary_info().creation_time().map(snapshot::sys_to_pair));
         self.disk.borrow_mut().hard_fault_fired = false;
         let disk = self.disk.clone();
         let mut rng = Prng::new(self.aux(3));
@@ -1290,7 +1311,12 @@ impl<'a> Exec<'a> {
         let cache_probe = self.disk.borrow().cfg.write_back;
         // C16: a session that only read must not have written, however it closed
         if let Some(opened_on) = self.session_image.take() {
-            if self.cfg.oracles && !self.tainted && !self.faults_in_play() {
+            let only_flush_faults = {
+                let d = self.disk.borrow();
+                let st = &d.stats;
+                (0..3).all(|k| st.hard_transient[k] == 0 && st.hard_persistent[k] == 0) && st.storage_full == 0 && !self.any_hard_fault_non_flush
+            };
+            if self.cfg.oracles && (!self.tainted || only_flush_faults) && (!self.faults_in_play() || only_flush_faults) && self.session_clean {
                 let (writes, same) = {
                     let d = self.disk.borrow();
                     (d.stats.events[EvKind::Write.idx()], d.view == opened_on)
@@ -1381,6 +1407,7 @@ impl<'a> Exec<'a> {
 
     fn reopen_working(&mut self, image: Vec<u8>) {
         self.session_image = if self.cfg.oracles && !self.tainted { Some(image.clone()) } else { None };
+        self.session_clean = self.session_image.is_some();
         self.disk = self.new_disk(image);
         self.disk.borrow_mut().begin_op(self.cur_id);
         // the close and the reopen belong to one operation: ordinals go on
@@ -1678,6 +1705,9 @@ pub fn run(trace: &Trace, cfg: &ExecCfg) -> RunResult {
         deleted_under_handle: false,
         byte_level_failed: false,
         session_image: None,
+        time_before_close: None,
+        any_hard_fault_non_flush: false,
+        session_clean: false,
     };
     match &trace.init {
         Init::Create(pt) => {
